@@ -3,12 +3,12 @@ import random
 
 STATES = {"str": ["q0", "q1", "q2", "q3"], "int": [0, 1, 2, 3],
           "reserved": ["#STARTTOFINAL#", "#ENDTOFINAL#", "#STARTEMPTYS#", "#ENDEMPTYS#0"],
-          "tuple": [("p", 0), ("p", 1), (0, 0), (1,)]}
+          "tuple": [("p", 0), ("p", 1), (0, 0), (1,)], "mixed": [1, "1", 2, "2"]}
 STACK = {"str": ["Z", "X", "Y", "W"], "int": [0, 1, 2, 3],
          "reserved": ["#BOTTOMTOFINAL#", "#BOTTOMEMPTYS#", "#BOTTOMEMPTYS#0", "#BOTTOMTOFINAL#0"],
-         "tuple": ["Z", "X", "Y", "W"]}
+         "tuple": ["Z", "X", "Y", "W"], "mixed": [0, "0", 1, "1"]}
 INPUTS = ["a", "b"]
-VCS = ["str", "str", "int", "reserved", "tuple", "inject"]
+VCS = ["str", "str", "int", "reserved", "tuple", "inject", "mixed"]
 
 
 def random_case(rng, max_states=3, max_stack=2, max_trans=6, max_push=3, vcs=None):
@@ -30,6 +30,9 @@ def random_case(rng, max_states=3, max_stack=2, max_trans=6, max_push=3, vcs=Non
     if c["vc"] == "inject":
         c["perm"] = rng.sample(range(4), 4)
         c["zperm"] = rng.sample(range(4), 4)
+        if rng.random() < 0.2:
+            c["perm"] = [rng.randrange(2) for _ in range(4)]        # different keys, equal hashes
+            c["zperm"] = [rng.randrange(2) for _ in range(4)]
     if rng.random() < 0.15:
         c["form"] = "bulk"
     return c
